@@ -38,7 +38,7 @@ class TypedOps(Facet):
         return (100, 8) if tier == "quick" else (500, 16)
 
     def strategy(self, tier):
-        return world_cases(self.flags, reps=self.reps, max_ops=10, with_search=True, with_init="tree" in self.reps)
+        return world_cases(self.flags, reps=self.reps, max_ops=10, with_search=True, with_init="tree" in self.reps, with_edge=True)
 
     def run(self, case, rec):
         w = World(case)
